@@ -67,6 +67,10 @@ class Estimandizer:
 
             if baseline_col not in data_df.columns:
                 data_df, __ = globals()[estimand](data_df, BASELINE_PREFIX)
+            elif estimand == "margin" and {f"{BASELINE_PREFIX}dem", f"{BASELINE_PREFIX}gop"}.issubset(data_df.columns):
+                # the margin column is already there (a frame that an earlier run has worked on, or data saved by one):
+                # the weights of a margin run are the two party votes all the same, not the turnout set above
+                data_df[f"{BASELINE_PREFIX}weights"] = data_df[f"{BASELINE_PREFIX}dem"] + data_df[f"{BASELINE_PREFIX}gop"]
 
             if not historical:
                 data_df[f"last_election_results_{estimand}"] = data_df[baseline_col].copy() + 1
